@@ -93,6 +93,22 @@ def cv_c04(tier):
         for p in cv_pairs(CV_CORE, CV_WAKERS): J.append((p, 2, 2))
     return J
 
+CV_READER_SIGNAL = ['Ww|@1 F Sr|R', 'Cw|@1 Sr|R', 'Cw|@1 Sr|R R', 'Ww|Wr|@2 F Br|R', 'Ww|@1 F Sr|L', 'Cw|Cr|@2 Sr|R', 'Wg|@1 F Sr|R', 'Wn|@1 F Sr|R', 'Cw|@1 Br|R', 'Wwd|@1 F Sr|R']
+
+def cv_c01(tier):
+    """programs for C01 (every way to come to hold the mutex through a cv): a cheaper selection of the C04/C05 lists
+    plus wake-ups issued inside reader sections (cv waiter transferred to the mutex queue while readers come and go)."""
+    J = []
+    q = tier == 'quick'
+    for p in CV_READER_SIGNAL: J.append((p, 2 if p.count('|') == 2 or q else 3, 1 if 'd' in p else 0))
+    for p in cv_singles(CV_CORE + CV_MORE, ['S', 'B', "S'"]): J.append((p, 3 if q else 5, 1))
+    for p in cv_pairs(['Ww', 'Wr', 'Wn', 'Wg'], ['S', 'B']): J.append((p, 2, 0))
+    for p in cv_pairs(['Ww', 'Wr', 'Wwd', 'Wnd'], ['S', "B'"]): J.append((p, 1 if q else 2, 1))
+    for p in ['Ww|Ww|Ww|@3 S', 'Wr|Wr|Ww|@3 S', 'Ww|Wn|@2 S|L', 'Wr|Wr|@2 S|L', 'WwN|Ww|@2 S|N']: J.append((p, 1, 0))
+    c5 = cv_c05('quick')
+    J += [(p, min(P, 2 if q else 3), E) for (p, P, E) in c5[:: (3 if q else 1)]]
+    return J
+
 def cv_c05(tier):
     J = []
     timed = ['Cwd', 'Cwp', 'Crd', 'Crp', 'Cgd', 'Cnd', 'Cnp', 'Wwd', 'Wrd']
@@ -153,6 +169,17 @@ def mw_c05(tier):
             J.append(('|'.join(t), Pq if len(t) == 2 else 2, 2 if len(t) == 2 or tier == 'thorough' else 1))
     for p in ['Mw1d|Mw1d|@2 A', 'Mw1d|Mr1d|Z', 'Mw1d|Mw2|@2 B', 'Mr1d|Mr1d|R', 'Mw1N|Mw1d|@2 N|Z']:
         J.append((p, 2 if p.count('|') == 2 else 1, 1 if tier == 'quick' else 2))
+    return J
+
+def mw_c04(tier):
+    """cv waiters on a mutex that also has conditional waiters: wake-ups issued inside reader sections or
+    with no lock held, after an unlock scan has set the all-conditions-false hint."""
+    J = []
+    P3 = 2 if tier == 'quick' else 3
+    for p in ['Mw1|V|@2 Z F Sr', 'Mw1|V|@2 Z F Br', 'Mr1|V|@2 Z F Sr', 'Mw1|V|@2 F Sr', 'Mw2|V|@2 Z F G', 'Mw1|V|@2 Z S', 'Mw1|V|@2 F Z Sr A']:
+        J.append((p, P3, 0))
+    for p in ['Mw1|V|@2 Z F|@2 R G', 'Mw1|V|@2 Z F|@2 R Sr', 'Mw1|V|V|@3 Z F Sr', 'Mr1|V|V|@3 Z F Br', 'Mw1|V|@2 Z F Sr|@2 R', 'Mw1|Mw2|V|@3 Z F Sr', 'Mw1|V|@2 Z F G|R R']:
+        J.append((p, 1 if tier == 'quick' else 2, 0))
     return J
 
 # ---------------- once ----------------
@@ -232,9 +259,10 @@ def note_c09(tier):
 # ---------------- waitn ----------------
 def waitn_c11(tier):
     J = []
-    two = ['Wa|na', 'Wad|na', 'Wap|na', 'Wc|dc', 'Wcd|dc', 'Wab|nb', 'Wacd|dc', 'Wabeck|dk', 'Wabeckd|ne', 'Wvd|@1 S', "Wvd|@1 S'", 'Wv|@1 B', 'Wav|@1 S', 'Wvad|na', 'Wckp|dk']
+    two = ['Wa|na', 'Wad|na', 'Wap|na', 'Wc|dc', 'Wcd|dc', 'Wab|nb', 'Wacd|dc', 'Wabeck|dk', 'Wabeckd|ne', 'Wvd|@1 S', "Wvd|@1 S'", 'Wv|@1 B', 'Wav|@1 S', 'Wvad|na', 'Wckp|dk',
+           'Wabekv|@1 S', "Wabekvd|@1 S'", 'Wvabek|@1 B', 'Wabekv|S', 'Wvcabd|@1 S', 'Wabv|@1 S', 'Wabcv|S']
     for p in two: J.append((p, 3 if tier == 'quick' else 5, 1 if p.split('|')[0][-1] in 'dp' else 0))
-    three = ['Wab|na|nb', 'Wacd|na|dc', 'Wabeckd|nb|dk', 'Wa|Wa|na', 'Wad|Wab|na', 'Wav|@1 na|@1 S', "Wvd|Vw|@2 S", 'Wvd|Wvd|@2 S', 'Wv|Wv|@2 B', 'Wvc|@1 dc|@1 S\'', 'Wck|dc|dk', 'Wabeck|Wkceba|nb', 'Wad|na|Wa', 'Wvbd|Vw|@2 S']
+    three = ['Wabekv|@1 S|nb', 'Wabekv|Vw|@2 S', 'Wvabek|@1 S\'|dk', 'Wab|na|nb', 'Wacd|na|dc', 'Wabeckd|nb|dk', 'Wa|Wa|na', 'Wad|Wab|na', 'Wav|@1 na|@1 S', "Wvd|Vw|@2 S", 'Wvd|Wvd|@2 S', 'Wv|Wv|@2 B', 'Wvc|@1 dc|@1 S\'', 'Wck|dc|dk', 'Wabeck|Wkceba|nb', 'Wad|na|Wa', 'Wvbd|Vw|@2 S']
     for p in three: J.append((p, 2, 1 if 'd' in p.replace('dc', '').replace('dk', '') else 0))
     four = ['Wab|Wba|na|nb', 'Wv|Vw|@2 S|@2 S', 'Wacd|Wck|dc|dk', 'Wavd|Vw|@2 S|na']
     for p in four: J.append((p, 1 if tier == 'quick' else 2, 1 if 'd' in p.replace('dc', '').replace('dk', '') else 0))
